@@ -59,11 +59,14 @@ def _ctx():
         C.append((name, accept, rtype, build, fillers))
 
     same = lambda t: t  # noqa  (value passes through unchanged)
+    alt = lambda t: "j" if t == "l" else t  # noqa  (passes through, but another branch may yield a non-list)
     tag = lambda t: "h" if t == "h" else (t if t in ("i", "ii") else "j")  # noqa  (value wrapped in a tagged tuple)
     H = lambda t: "h"  # noqa
     J = lambda t: "j"  # noqa
     ANY = ("h", "j", "l", "i", "ii")
-    EAGER = ("h", "j", "l")  # what may be stored in a cache: no single-use iterators
+    # EAGER: what may be stored in a cache or used only to pick a branch.  A lazy Iter/Map result in a
+    # dispatch position is never consumed, so evaluate() would not even look at its elements.
+    EAGER = ("h", "j", "l")
     I = lambda t: "ii" if t in ("i", "ii") else "i"  # noqa  (lazy iterable: Iter / Map results)
     Jl = lambda t: t if t in ("i", "ii") else "j"  # noqa  (container holding the value)
 
@@ -75,7 +78,7 @@ def _ctx():
     add("fa_kw", ANY, tag, lambda h, i: ("fa", f"g{i}", [], {"k": h}))
     add(
         "bind_src",
-        ANY,
+        EAGER,
         H,
         lambda h, i: (
             "bind",
@@ -88,7 +91,7 @@ def _ctx():
     add(
         "bind_res",
         ANY,
-        same,
+        alt,
         lambda h, i: ("bind", ("opt", _q(i, "r"), ("val", 0)), [(0, h)], ("val", "other")),
         lambda i: [(_q(i, "r"), [ABSENT, 1])],
     )
@@ -103,7 +106,7 @@ def _ctx():
     add(
         "switch_branch",
         ANY,
-        same,
+        alt,
         lambda h, i: (
             "switch",
             ("opt", _q(i, "w"), ("val", "k")),
@@ -115,21 +118,21 @@ def _ctx():
     add(
         "switch_dflt",
         ANY,
-        same,
+        alt,
         lambda h, i: ("switch", ("optkey", _q(i, "x")), [("k", ("val", 0))], h),
         lambda i: [(_q(i, "x"), [ABSENT, "k", "zz"])],
     )
     add(
         "case_disp",
-        ANY,
+        EAGER,
         H,
         lambda h, i: ("case", h, [(("fn", "p_eq:1"), ("val", "is1")), (("fn", "p_eq:2"), ("val", "is2"))], ("val", "else")),
     )
-    add("case_disp_nd", ANY, H, lambda h, i: ("case", h, [(("fn", "p_eq:1"), ("val", "is1"))], None))
+    add("case_disp_nd", EAGER, H, lambda h, i: ("case", h, [(("fn", "p_eq:1"), ("val", "is1"))], None))
     add(
         "case_branch",
         ANY,
-        same,
+        alt,
         lambda h, i: (
             "case",
             ("opt", _q(i, "c"), ("val", 1)),
@@ -140,22 +143,22 @@ def _ctx():
     )
     add(
         "case_cond",
-        ANY,
+        EAGER,
         H,
         lambda h, i: ("case", ("val", 1), [(("pa", "p_same", [h], {}), ("val", "match"))], ("val", "else")),
     )
     add(
         "case_other",
         ANY,
-        same,
+        alt,
         lambda h, i: ("case", ("opt", _q(i, "o"), ("val", 3)), [(("fn", "p_eq:1"), ("val", "is1"))], h),
         lambda i: [(_q(i, "o"), [ABSENT, 1])],
     )
-    add("coalesce_first", ANY, same, lambda h, i: ("coalesce", [h, ("ds", f"cl{i}", {"params": []})]))
+    add("coalesce_first", ANY, alt, lambda h, i: ("coalesce", [h, ("ds", f"cl{i}", {"params": []})]))
     add(
         "coalesce_second",
         ANY,
-        same,
+        alt,
         lambda h, i: ("coalesce", [("opt", _q(i, "f")), h, ("ds", f"cm{i}", {"params": []})]),
         lambda i: [(_q(i, "f"), [ABSENT, "first"])],
     )
@@ -198,7 +201,7 @@ def _ctx():
     add(
         "ds_overload",
         EAGER,
-        same,
+        alt,
         lambda h, i: (
             "ds",
             f"do{i}",
@@ -227,7 +230,7 @@ def _ctx():
     add(
         "opt_default",
         ANY,
-        same,
+        alt,
         lambda h, i: ("opt", _q(i, "e"), h),
         lambda i: [(_q(i, "e"), [ABSENT, "given"])],
     )
@@ -240,7 +243,7 @@ def _ctx():
     add(
         "overloaded_branch",
         ANY,
-        same,
+        alt,
         lambda h, i: ("overloaded", ("opt", _q(i, "v"), ("val", "k")), [("k", h)], None),
         lambda i: [(_q(i, "v"), [ABSENT, "zz"])],
     )
@@ -283,6 +286,16 @@ def compose(ctx_names, leaf_name):
                 if not any(type(v) is type(w) and v == w for w in merged[k]):
                     merged[k].append(v)
     return term, [(k, merged[k]) for k in order]
+
+
+def final_type(ctx_names, leaf_name):
+    typ = LEAF_BY_NAME[leaf_name][2]
+    for cn in reversed(ctx_names):
+        _, accept, rtype, build, fillers = CTX_BY_NAME[cn]
+        if typ not in accept:
+            return None
+        typ = rtype(typ)
+    return typ
 
 
 def catalogue(depth, leaves=None, contexts=None):
